@@ -165,7 +165,19 @@ def np_array(I, st, args, kw, node):
             raise Unsupported("np.array of a list of batches (ragged)")
         el = c["__symelem__"]
         if c["__kind__"] == "tuple":
-            raise Unsupported("np.array of a list of tuples")
+            p0 = el(0)
+            w = len(p0)
+            srt = to_z3(p0[0]).sort()
+
+            def at2(i, j, el=el, w=w):
+                t = el(i)
+                if isinstance(j, int):
+                    return t[j]
+                e = t[-1]
+                for q in range(w - 2, -1, -1):
+                    e = z3.If(j == q, t[q], e)
+                return e
+            return st.new_arr(Arr((c["__symlen__"], w), at2, srt))
         e0 = to_z3(el(0))
         srt = "int" if z3.is_int(e0) else ("real" if z3.is_real(e0) else ("bool" if z3.is_bool(e0) else e0.sort()))
         return st.new_arr(Arr((c["__symlen__"],), lambda k: el(k), srt))
